@@ -6,14 +6,14 @@ import "github.com/rbell/toolchest/storage"
 
 const hooked = true
 
-func hold(c *storage.FifoMapCache[int, int])    { c.VerifHoldSweeps() }
-func release(c *storage.FifoMapCache[int, int]) { c.VerifReleaseSweeps() }
+func hold[K comparable, V any](c *storage.FifoMapCache[K, V])    { c.VerifHoldSweeps() }
+func release[K comparable, V any](c *storage.FifoMapCache[K, V]) { c.VerifReleaseSweeps() }
 
 // layout returns the partitions oldest first, each as its key list
-func layout(c *storage.FifoMapCache[int, int]) [][]int {
-	var out [][]int
+func layout[K comparable, V any](c *storage.FifoMapCache[K, V]) [][]K {
+	var out [][]K
 	for _, p := range c.VerifLayout() {
-		ks := make([]int, 0, len(p.Entries))
+		ks := make([]K, 0, len(p.Entries))
 		for k := range p.Entries {
 			ks = append(ks, k)
 		}
